@@ -3,9 +3,11 @@
 use crate::core::Scenario;
 use crate::driver::{CheckSpec, Part};
 
-pub static CHUNK: crate::scen_chunk::Chunk = crate::scen_chunk::Chunk;
+pub static CHUNK: crate::scen_chunk::Chunk = crate::scen_chunk::Chunk { corpus: false };
+pub static CORPUS: crate::scen_chunk::Chunk = crate::scen_chunk::Chunk { corpus: true };
 pub static SOUP: crate::scen_chunk::Soup = crate::scen_chunk::Soup;
-pub static FAULT: crate::scen_fault::FaultScen = crate::scen_fault::FaultScen;
+pub static FAULT: crate::scen_fault::FaultScen = crate::scen_fault::FaultScen { corpus: false };
+pub static CORPUSFAULT: crate::scen_fault::FaultScen = crate::scen_fault::FaultScen { corpus: true };
 
 pub static SKIP: crate::scen_hist::Skip = crate::scen_hist::Skip;
 pub static NS: crate::scen_hist::Ns = crate::scen_hist::Ns;
@@ -15,7 +17,7 @@ pub static DE: crate::scen_de::De = crate::scen_de::De;
 pub static PIPE: crate::scen_pipe::Pipe = crate::scen_pipe::Pipe;
 
 pub fn all_scenarios() -> Vec<&'static dyn Scenario> {
-    vec![&CHUNK, &SOUP, &FAULT, &SKIP, &NS, &NEST, &DE, &PIPE]
+    vec![&CHUNK, &SOUP, &FAULT, &SKIP, &NS, &NEST, &DE, &PIPE, &CORPUS, &CORPUSFAULT]
 }
 
 const STUBS: &[&str] = &[
@@ -34,7 +36,7 @@ pub fn spec_for(prop: &str) -> Option<CheckSpec> {
         "C02" => Some(CheckSpec {
             prop: "C02",
             level: "exploration",
-            parts: vec![Part { scen: &CHUNK, quick: 600_000, thorough: 20_000_000 }],
+            parts: vec![Part { scen: &CHUNK, quick: 2_400_000, thorough: 60_000_000 }, Part { scen: &CORPUS, quick: 36, thorough: 3_600 }],
             rule: "one case = (document, 7 reader switches, reader flavour, source kind, BufReader capacity, cut set, buffer policy, pending pattern); generated from the seed; distinct = distinct Plan hash (every cut set of an exhaustively cut short document counts once); non-trivial = at least one piece boundary lies strictly between a '<' and the next '>' (scanner state must cross a refill) or at least one Poll::Pending fired",
             assumptions: vec![
                 "the slice reader is the reference: agreement is checked, not the correctness of either side",
@@ -48,12 +50,13 @@ pub fn spec_for(prop: &str) -> Option<CheckSpec> {
             prop: "C03",
             level: "exploration",
             parts: vec![
-                Part { scen: &SOUP, quick: 500_000, thorough: 20_000_000 },
-                Part { scen: &CHUNK, quick: 100_000, thorough: 2_000_000 },
-                Part { scen: &FAULT, quick: 10_000, thorough: 200_000 },
-                Part { scen: &SKIP, quick: 100_000, thorough: 2_000_000 },
-                Part { scen: &NS, quick: 100_000, thorough: 2_000_000 },
-                Part { scen: &NEST, quick: 100_000, thorough: 2_000_000 },
+                Part { scen: &SOUP, quick: 2_000_000, thorough: 40_000_000 },
+                Part { scen: &CHUNK, quick: 300_000, thorough: 4_000_000 },
+                Part { scen: &FAULT, quick: 20_000, thorough: 300_000 },
+                Part { scen: &SKIP, quick: 300_000, thorough: 4_000_000 },
+                Part { scen: &NS, quick: 300_000, thorough: 4_000_000 },
+                Part { scen: &NEST, quick: 300_000, thorough: 4_000_000 },
+                Part { scen: &CORPUS, quick: 18, thorough: 1_800 },
             ],
             rule: "one case = (byte string, switches, reader flavour, source kind, chunking, faults, end-of-stream point); distinct = distinct Plan hash x end-of-stream point; non-trivial = the run produced at least one event or error before Eof",
             assumptions: vec![
@@ -68,7 +71,7 @@ pub fn spec_for(prop: &str) -> Option<CheckSpec> {
         "C18" => Some(CheckSpec {
             prop: "C18",
             level: "fault_enumeration",
-            parts: vec![Part { scen: &FAULT, quick: 40_000, thorough: 1_500_000 }],
+            parts: vec![Part { scen: &FAULT, quick: 120_000, thorough: 3_000_000 }, Part { scen: &CORPUSFAULT, quick: 0, thorough: 360 }],
             rule: "one case = (document, switches, source kind, cut set, fault point, fault kind); for each sampled (document, switches, source, cuts) EVERY refill call index of the fault-free run is used as fault point with Eintr x1, Eintr x3 and one hard error kind; a quarter of the plans are random multi-fault patterns instead; distinct = Plan hash x fault list; non-trivial = the fault hit a refill call that is not the first one of its read call (part of the event was already consumed)",
             assumptions: vec![
                 "the fault-free run over the same source and chunking is the reference",
@@ -81,7 +84,7 @@ pub fn spec_for(prop: &str) -> Option<CheckSpec> {
         "C12" => Some(CheckSpec {
             prop: "C12",
             level: "exploration",
-            parts: vec![Part { scen: &SKIP, quick: 1_500_000, thorough: 40_000_000 }],
+            parts: vec![Part { scen: &SKIP, quick: 4_000_000, thorough: 100_000_000 }],
             rule: "one case = (well-nested token document with repeated names, look-alike end tags in comments/CDATA/PIs/attribute values and blanks around tags; trim/expand/check switches; source kind and chunking; script of Read / Skip / ReadText calls; optional truncation point, injected I/O error or interrupt); distinct = Plan hash; non-trivial = at least one skip was made AND (a skipped element contains its own name as '</name' inside — nested same-name element or look-alike — or a failure path was taken)",
             assumptions: vec![
                 "element spans and matching end tags come from the generator's token list, not from the library",
@@ -94,7 +97,7 @@ pub fn spec_for(prop: &str) -> Option<CheckSpec> {
         "C05" => Some(CheckSpec {
             prop: "C05",
             level: "exploration",
-            parts: vec![Part { scen: &NS, quick: 1_000_000, thorough: 30_000_000 }],
+            parts: vec![Part { scen: &NS, quick: 3_000_000, thorough: 80_000_000 }],
             rule: "one case = (well-formed token document over 3 prefixes / 3 URIs with declarations, re-declarations, xmlns=\"\", xmlns:p=\"\" and shadowing; expand-empty on/off; source kind and chunking; script of Read / ReadResolved / Skip / ReadText calls); after EVERY call 14 probe names (7 prefixes x element/attribute) and the prefixes() listing are compared with the scope model; distinct = Plan hash; non-trivial = at least one declaration was in play AND (at least one skip or at least one shadowing)",
             assumptions: vec![
                 "the scope model is computed from the generator's token list (declarations per element), never from the library's output",
@@ -106,7 +109,7 @@ pub fn spec_for(prop: &str) -> Option<CheckSpec> {
         "C04" => Some(CheckSpec {
             prop: "C04",
             level: "exploration",
-            parts: vec![Part { scen: &NEST, quick: 1_500_000, thorough: 40_000_000 }],
+            parts: vec![Part { scen: &NEST, quick: 4_000_000, thorough: 100_000_000 }],
             rule: "one case = (sequence of well-formed tokens over names a/ab/b/a:b incl. end tags with trailing blanks or attributes and <x/>; initial values of the 4 related switches; script of Read calls with 0-8 switch flips at arbitrary points; source kind and chunking); every outcome is judged by a nondeterministic open-element-stack model; distinct = Plan hash; non-trivial = an end tag was judged while depth >= 2 or after at least one flip",
             assumptions: vec![
                 "where the property is silent (does a non-matching end tag close the element?) the model keeps both successor states; an outcome is a violation only if no candidate stack allows it",
@@ -118,7 +121,7 @@ pub fn spec_for(prop: &str) -> Option<CheckSpec> {
         "C14" => Some(CheckSpec {
             prop: "C14",
             level: "exploration",
-            parts: vec![Part { scen: &DE, quick: 1_000_000, thorough: 30_000_000 }],
+            parts: vec![Part { scen: &DE, quick: 4_000_000, thorough: 150_000_000 }],
             rule: "one case = (target type of a 23-type family, UTF-8 document: serializer output of a generated value / 1-3 token-level mutations / token soup / truncation, source kind SimBufRead or std BufReader(cap), cut set); from_str and from_reader must both fail or both succeed with equal values; distinct = Plan hash; non-trivial = at least one piece boundary strictly inside markup, or from_str fails (then from_reader must fail too); evidence also reports how many cases had a boundary inside markup AND a successful from_str",
             assumptions: vec![
                 "only the chunking is varied (no interrupts, no I/O errors): exactly what C14 states",
@@ -131,7 +134,7 @@ pub fn spec_for(prop: &str) -> Option<CheckSpec> {
         "C07" => Some(CheckSpec {
             prop: "C07",
             level: "exploration",
-            parts: vec![Part { scen: &DE, quick: 1_000_000, thorough: 30_000_000 }],
+            parts: vec![Part { scen: &DE, quick: 4_000_000, thorough: 150_000_000 }],
             rule: "same cases as C14 (both entry points are executed for every case); a panic from library code or an exceeded source-call budget / wall-clock watchdog is a violation; distinct = Plan hash; non-trivial = the document is not accepted by from_str (mutated / wrong shape / truncated) or is cut inside markup",
             assumptions: vec![
                 "panic attribution: a panic whose location is outside /verif/sim is charged to the library",
@@ -144,7 +147,7 @@ pub fn spec_for(prop: &str) -> Option<CheckSpec> {
         "C09" => Some(CheckSpec {
             prop: "C09",
             level: "exploration",
-            parts: vec![Part { scen: &PIPE, quick: 600_000, thorough: 20_000_000 }],
+            parts: vec![Part { scen: &PIPE, quick: 1_500_000, thorough: 50_000_000 }],
             rule: "one case = (sequence of <= 12 builder calls with in-place edits and markup-heavy payloads, indentation or none, pipe capacity, per-call accepted lengths, write/read Pending patterns, reader piece sizes, executor choice stream, optional write-error point); writer task and reader task run interleaved over the simulated pipe; distinct = Plan hash; non-trivial = the reader task found the pipe empty while the writer was not finished (an event was only partly delivered) AND at least one short write or back-pressure Pending occurred, or a write error was injected",
             assumptions: vec![
                 "preconditions of the constructors are enforced by predicates on the final strings (names legal, PI without '?>', comment without '--', doctype non-empty/balanced, CDATA::new without ']]>')",
